@@ -192,27 +192,29 @@ def overlapAdd (nseg hop nwin : Nat) (g : Nat → Nat → α) (t : Nat) : α :=
 /-- `xlen = nwin + (nseg - 1) * hop` (for `nseg = 0`: `nwin - hop`) -/
 def outLen (nseg nwin hop : Nat) : Nat := if nseg = 0 then nwin - hop else nwin + (nseg - 1) * hop
 
-/-- `istft(xx, win, overlap, nfft, range, method)`; `method = 0` `Ola` (`a = 0`), otherwise `Wola` (`a = 1`).
+/-- the body of `istft` after its checks: re-synthesis of every frame, overlap-add of `y * win^a` and of `win^(a+1)`,
+guard, division.  `method = 0` is `Ola` (`a = 0`), otherwise `Wola` (`a = 1`). -/
+def istftCore (fwd : Nat → Vec α → Vec α) (xx : Array (Vec α)) (win : Array α) (overlap nfft range method : Nat) : Array α :=
+  let nwin := win.size
+  let hop := nwin - overlap
+  let nseg := xx.size
+  -- `y = irfftp(_convert_range_istft(xx[i], nfft, range)).slice(0, nwin)` for every frame
+  let ys : Array (Array α) := Array.ofFn (n := nseg) (fun i => irfftCore fwd nfft (convertRangeIstftCore (xx.getD i.val #[]) nfft range))
+  mkR (outLen nseg nwin hop) (fun t =>
+    let acc := overlapAdd nseg hop nwin (fun i j => rdR (ys.getD i #[]) j * (if method = 0 then Fn.ofNat 1 else rdR win j)) t  -- `power(win, a)`
+    let nrm := overlapAdd nseg hop nwin (fun _ j => if method = 0 then rdR win j else rdR win j * rdR win j) t              -- `power(win, a + 1)`
+    acc / normGuard nseg nrm)
+
+/-- `istft(xx, win, overlap, nfft, range, method)`.
 `overlap ≤ nwin` (the code does not check the hop here; larger overlaps are not modelled). -/
 def istftWith (fwd : Nat → Vec α → Vec α) (xx : Array (Vec α)) (win : Array α) (overlap nfft range method : Nat) :
     Except String (Array α) :=
-  let nwin := win.size
-  if nwin < overlap then .error "not modelled: negative hop" else
-  let hop := nwin - overlap
-  let nseg := xx.size
-  let xlen := outLen nseg nwin hop
+  if win.size < overlap then .error "not modelled: negative hop" else
   if nfft < 2 then .error "FFT plan size error" else
   if nfft % 2 ≠ 0 then .error "ifft size must be even" else
-  if 0 < nseg ∧ nfft < nwin then .error "Right slice index out of range" else
+  if 0 < xx.size ∧ nfft < win.size then .error "Right slice index out of range" else
   if ¬ xx.all (fun f => f.size == frameLen nfft range) then .error "Input size must be equal `nfft` (`nfft/2+1` for the `onesided` range)" else
-  -- `y = irfftp(_convert_range_istft(xx[i], nfft, range)).slice(0, nwin)` for every frame
-  let ys : Array (Array α) := Array.ofFn (n := nseg) (fun i => irfftCore fwd nfft (convertRangeIstftCore (xx.getD i.val #[]) nfft range))
-  let nom (j : Nat) : α := if method = 0 then Fn.ofNat 1 else rdR win j          -- `power(win, a)`
-  let den (j : Nat) : α := if method = 0 then rdR win j else rdR win j * rdR win j -- `power(win, a + 1)`
-  .ok (mkR xlen (fun t =>
-    let acc := overlapAdd nseg hop nwin (fun i j => rdR (ys.getD i #[]) j * nom j) t
-    let nrm := overlapAdd nseg hop nwin (fun _ j => den j) t
-    acc / normGuard nseg nrm))
+  .ok (istftCore fwd xx win overlap nfft range method)
 
 /-! ## instances on top of C01's forward transforms -/
 
